@@ -13,7 +13,7 @@ from .common import Discard, run_alg, well_formed, dataset_tags
 
 ID = "C09"
 ENVS = ["absent"]
-RUNS = {"quick": 48000, "thorough": 480000}
+RUNS = {"quick": 96000, "thorough": 960000}
 RULE = ("case = (dataset with independent first-appearance / insertion orders, valid scheme, BioConsert configurations "
         "with spied starters and RNG schedules) in a cell with its own hash seed; distinct = distinct case digest; "
         "non-trivial = a result over >= 3 elements was compared with at least one start ranking")
